@@ -1,5 +1,6 @@
 import PGM.Proofs.JTree
 import PGM.Proofs.JTWeight
+import PGM.Proofs.JTExists
 /-!
 # C12 — every constructed junction tree is valid, with a valid message schedule
 
@@ -28,13 +29,12 @@ theorem greedyOrder_perm (d : Dom) (cliques : List Clique) (attrs : List Attr) (
 nodes, `order` is a perfect elimination order of the triangulated graph — the later neighbours of
 every node are pairwise adjacent -/
 theorem triangulate_peo (g : Graph) (order : List Attr) (hnd : order.Nodup)
-    (hcov : ∀ a ∈ g.nodes, a ∈ order) (hsub : ∀ a ∈ order, a ∈ g.nodes)
-    (hed : ∀ e ∈ g.edges, e.1 ∈ g.nodes ∧ e.2 ∈ g.nodes)
+    (hsub : ∀ a ∈ order, a ∈ g.nodes)
     (pre post : List Attr) (v : Attr) (hsplit : order = pre ++ v :: post)
     (x y : Attr) (hx : x ∈ post) (hy : y ∈ post) (hxy : x ≠ y)
     (hvx : (triangulate g order).adj v x = true) (hvy : (triangulate g order).adj v y = true) :
     (triangulate g order).adj x y = true :=
-  JT.triangulate_peo g order hnd hcov hsub hed pre post v hsplit x y hx hy hxy hvx hvy
+  JT.triangulate_peo g order hnd hsub pre post v hsplit x y hx hy hxy hvx hvy
 
 /-- triangulation only adds edges: every input clique is still a clique -/
 theorem triangulate_mono (g : Graph) (order : List Attr) (a b : Attr) (h : g.adj a b = true) :
@@ -68,6 +68,78 @@ theorem max_weight_tree_is_jt_partial (attrs : List Attr) (t t' : Tree)
     (hrip : rip attrs t' = true) (hw : weight t' ≤ weight t) :
     rip attrs t = true :=
   JT.max_weight_tree_is_jt_partial attrs t t' h h' hn hrip hw
+
+/-- **chordal graphs have junction trees** (classical existence theorem, by induction along the
+perfect elimination order) -/
+theorem chordal_has_jt (g : Graph) (order : List Attr) (nodes : List Clique)
+    (hne : g.nodes ≠ []) (hnd : g.nodes.Nodup) (hpeo : IsPEO g order) (hfam : IsMaxCliqueFamily g nodes) :
+    ∃ t : Tree, t.nodes = nodes ∧ isTree t = true ∧ rip g.nodes t = true :=
+  JT.chordal_has_jt g order nodes hne hnd hpeo hfam
+
+/-- **every maximum-weight spanning tree over the maximal cliques of a chordal graph is a junction
+tree** — full strength -/
+theorem max_weight_tree_is_jt (g : Graph) (order : List Attr) (t : Tree)
+    (hne : g.nodes ≠ []) (hnd : g.nodes.Nodup) (hpeo : IsPEO g order) (hfam : IsMaxCliqueFamily g t.nodes)
+    (ht : isTree t = true)
+    (hmax : ∀ t' : Tree, t'.nodes = t.nodes → isTree t' = true → weight t' ≤ weight t) :
+    rip g.nodes t = true :=
+  JT.max_weight_tree_is_jt g order t hne hnd hpeo hfam ht hmax
+
+/-- the triangulated graph has the elimination order as a perfect elimination order -/
+theorem triangulate_isPEO (g : Graph) (order : List Attr) (hnd : order.Nodup)
+    (hiff : ∀ a, a ∈ g.nodes ↔ a ∈ order) : IsPEO (triangulate g order) order := by
+  refine ⟨hnd, ?_, ?_⟩
+  · intro a; simpa [triangulate, Graph.addEdges] using hiff a
+  · intro pre post v hsplit x hx y hy hxy hvx hvy
+    exact JT.triangulate_peo g order hnd (fun a ha => (hiff a).2 ha) pre post v hsplit x y hx hy hxy hvx hvy
+
+theorem makeGraph_nodes (attrs : List Attr) (cliques : List Clique) :
+    (makeGraph attrs cliques).nodes = attrs := by
+  unfold makeGraph
+  have key : ∀ (cs : List Clique) (g0 : Graph),
+      (cs.foldl (fun g cl => g.addEdges (pairs cl)) g0).nodes = g0.nodes := by
+    intro cs
+    induction cs with
+    | nil => intro g0; rfl
+    | cons c cs ih => intro g0; simp only [List.foldl_cons]; rw [ih]; rfl
+  rw [key]
+
+/-- **the construction of `JunctionTree` is correct, end to end** (modulo the two networkx
+contracts, which appear as hypotheses and are validated per generated case): for any clique set over
+the domain and any elimination order that is a permutation of the domain's attributes, if `t.nodes`
+lists the maximal cliques of the triangulated graph (`find_cliques`) and `t` is a spanning tree of
+maximum total separator size (`minimum_spanning_tree` on weights `−|Cᵢ∩Cⱼ|`), then `t` has the
+running-intersection property, every input clique is inside some node and every attribute appears. -/
+theorem junction_tree_construction_valid (attrs : List Attr) (cliques : List Clique) (order : List Attr)
+    (t : Tree) (hne : attrs ≠ []) (hnd : attrs.Nodup) (hperm : order.Perm attrs)
+    (hcl : ∀ c ∈ cliques, c.Nodup ∧ ∀ a ∈ c, a ∈ attrs)
+    (hfam : IsMaxCliqueFamily (triangulate (makeGraph attrs cliques) order) t.nodes)
+    (ht : isTree t = true)
+    (hmax : ∀ t' : Tree, t'.nodes = t.nodes → isTree t' = true → weight t' ≤ weight t) :
+    rip attrs t = true ∧
+    (∀ c ∈ cliques, ∃ n ∈ t.nodes, ∀ a ∈ c, a ∈ n) ∧
+    (∀ a ∈ attrs, ∃ n ∈ t.nodes, a ∈ n) := by
+  have hnodes : (makeGraph attrs cliques).nodes = attrs := makeGraph_nodes attrs cliques
+  have htn : (triangulate (makeGraph attrs cliques) order).nodes = attrs := by
+    simp [triangulate, Graph.addEdges, hnodes]
+  have hiff : ∀ a, a ∈ (makeGraph attrs cliques).nodes ↔ a ∈ order := by
+    intro a; rw [hnodes]; exact (hperm.mem_iff).symm
+  have hpeo := triangulate_isPEO (makeGraph attrs cliques) order (hperm.nodup_iff.2 hnd) hiff
+  have hrip := JT.max_weight_tree_is_jt _ order t (by rw [htn]; exact hne) (by rw [htn]; exact hnd) hpeo hfam ht hmax
+  rw [htn] at hrip
+  refine ⟨hrip, ?_, ?_⟩
+  · intro c hc
+    obtain ⟨hcn, hca⟩ := hcl c hc
+    have hclq : IsClique (triangulate (makeGraph attrs cliques) order) c := by
+      refine ⟨hcn, fun a ha => by rw [htn]; exact hca a ha, fun a ha b hb hab => ?_⟩
+      exact JT.triangulate_mono _ order a b (JT.makeGraph_complete attrs cliques c hc a b ha hb hab hca)
+    exact hfam.complete c hclq
+  · intro a ha
+    have hclq : IsClique (triangulate (makeGraph attrs cliques) order) [a] := by
+      refine ⟨by simp, fun b hb => by rw [htn]; simp at hb; rw [hb]; exact ha, fun x hx y hy hxy => ?_⟩
+      simp at hx hy; rw [hx, hy] at hxy; exact absurd rfl hxy
+    obtain ⟨n, hn, hsub⟩ := hfam.complete [a] hclq
+    exact ⟨n, hn, hsub a (by simp)⟩
 
 /-- non-vacuity: a concrete 3-node tree with its schedule is accepted -/
 example : checkJT ["a", "b", "c", "d"] [["a", "b"], ["b", "c"], ["c", "d"]]
